@@ -344,6 +344,21 @@ func (ex *tcExec) stmt(s ast.Stmt, st tcState) []tcState {
 		return ex.ifStmt(s, st)
 	case *ast.LabeledStmt:
 		return ex.stmt(s.Stmt, st)
+	case *ast.SwitchStmt:
+		// switch { case a, b: ...; case c: ...; default: ... } is an if / else-if chain over the disjunctions of the cases
+		if s.Tag == nil && s.Init == nil {
+			if chain := switchToIf(s); chain != nil {
+				return ex.stmt(chain, st)
+			}
+		}
+		if ex.interesting(s, false) || ex.lockOps(s) {
+			ex.op(&st, "TUnknown", s)
+		} else if ex.interesting(s, true) {
+			c := st.clone()
+			c.ret = true
+			return []tcState{c, st}
+		}
+		return []tcState{st}
 	default:
 		// loops, switches, selects: not executed symbolically. One that only leaves the function (a return in a
 		// select case) ends a copy of the path there; anything else that matters is not understood
@@ -411,6 +426,52 @@ func (ex *tcExec) inline(e ast.Expr, st tcState) ([]tcState, bool) {
 		out[i].ret = false
 	}
 	return out, true
+}
+
+// switchToIf rewrites a tagless switch without fallthrough into the equivalent if / else-if chain.
+func switchToIf(s *ast.SwitchStmt) ast.Stmt {
+	var clauses []*ast.CaseClause
+	var def *ast.CaseClause
+	for _, c := range s.Body.List {
+		cc := c.(*ast.CaseClause)
+		for _, b := range cc.Body {
+			if br, ok := b.(*ast.BranchStmt); ok && br.Tok == token.FALLTHROUGH {
+				return nil
+			}
+		}
+		if cc.List == nil {
+			def = cc
+		} else {
+			clauses = append(clauses, cc)
+		}
+	}
+	var tail ast.Stmt
+	if def != nil {
+		tail = &ast.BlockStmt{List: def.Body}
+	}
+	for i := len(clauses) - 1; i >= 0; i-- {
+		cc := clauses[i]
+		cond := cc.List[0]
+		for _, x := range cc.List[1:] {
+			cond = &ast.BinaryExpr{X: cond, Op: token.LOR, Y: x}
+		}
+		tail = &ast.IfStmt{If: cc.Pos(), Cond: cond, Body: &ast.BlockStmt{List: cc.Body}, Else: tail}
+	}
+	if tail == nil {
+		return &ast.BlockStmt{}
+	}
+	return tail
+}
+
+// disjuncts lists the operands of a || b || c.
+func disjuncts(e ast.Expr) []ast.Expr {
+	if p, ok := e.(*ast.ParenExpr); ok {
+		return disjuncts(p.X)
+	}
+	if b, ok := e.(*ast.BinaryExpr); ok && b.Op == token.LOR {
+		return append(disjuncts(b.X), disjuncts(b.Y)...)
+	}
+	return []ast.Expr{e}
 }
 
 func endsInReturn(b *ast.BlockStmt) bool {
@@ -495,6 +556,18 @@ func (ex *tcExec) ifStmt(s *ast.IfStmt, st tcState) []tcState {
 			out = append(out, b)
 		}
 		return out
+	}
+	// if A || e.isLeader.Load() || B { ...; return }: whoever gets past it does not lead (nothing is known on the other side)
+	if ds := disjuncts(s.Cond); len(ds) > 1 && s.Else == nil && endsInReturn(s.Body) && st.locked {
+		for _, dj := range ds {
+			if _, ok := ex.callOn(dj, "isLeader", "Load"); ok {
+				a := st.clone()
+				out := ex.walk(s.Body.List, a)
+				b := st.clone()
+				ex.op(&b, "TAssumeLeader false", s)
+				return append(out, b)
+			}
+		}
 	}
 	// if e.ctx != nil && e.ctx.Err() == nil { return ... }
 	if s.Else == nil && endsInReturn(s.Body) && st.locked && !ex.interesting(s.Body, false) {
